@@ -42,6 +42,8 @@ Ladder(o) ==
                    RUt("CW", "Cold", TMin - 100, TMin - 50) >>
     [] o = 10 -> << RUt("LPS", "Both", TMin + 150, TMin + 150),             \* a header used and fed at one level, with a SECOND generator
                     RUtd("GEN2", "Cold", TMin + 150, TMin + 150, 50) >>     \*   exporting into it (larger contribution: both carry duty) -- seed C02a
+    [] o = 11 -> << RUtd("CWd", "Cold", TMin - 50, TMin - 50, 100) >>      \* a cold utility whose own contribution lifts its level INTO the
+                                                                           \*   process range: real -50, shifted +50 (KF-C03-cold-utility-contribution)
     [] o = 9 -> << RUt("HWL", "Hot", TMin + 150, TMin + 50) >>              \* a hot-water loop gliding through the process range below the
                                                                            \*   (default) top level: slope-limited against a convex GCC (seed C12e)
     [] o = 5 -> << RUt("USE", "Hot", TMin + 30, TMin + 20),                 \* for the fine lattice {120,130,140}: use at 150->140,
